@@ -635,6 +635,46 @@ func run(r *vt.Run, t vt.TB, s spec) {
 					h8.Close()
 				}
 			}
+			// ... and a handle that was opened while a living connection was in
+			// the middle of a write transaction which had already spilled pages
+			// (its journal valid, EXCLUSIVE held: the handle asked "is the
+			// journal's owner alive?" and was told yes); that transaction is
+			// rolled back, then comes the crash, and at the handle's next read
+			// another process holds a read lock on the shared range
+			var got9 map[string][][]interface{}
+			var gerr9 error
+			i9 := filepath.Join(dir, "i.sqlite")
+			sqdb.Remove(i9)
+			copyFile(base, i9)
+			if baseJournal {
+				copyFile(base+"-journal", i9+"-journal")
+			}
+			if err := env.O.Open("live", i9); err != nil {
+				r.Harness(t, "open live: %v", err)
+			}
+			liveTxn := []oracle.Stmt{{SQL: "PRAGMA synchronous=OFF", Fetch: true}, {SQL: "PRAGMA cache_size=1", Fetch: true}, {SQL: "BEGIN"},
+				{SQL: "UPDATE t SET c = c || hex(zeroblob(300))"}, {SQL: "UPDATE t SET b = b + 1000"}}
+			lres, lerr := env.O.Script("live", liveTxn, true)
+			sqdb.MustOK(r, t, "live transaction", lres, lerr, len(liveTxn))
+			h9, oerr9 := sqlittle.Open(i9)
+			if err := env.O.Exec("live", "ROLLBACK"); err != nil {
+				r.Harness(t, "rollback live: %v", err)
+			}
+			env.O.Close("live")
+			if oerr9 == nil {
+				overwrite(work, i9)
+				os.Remove(i9 + "-journal")
+				if jerr == nil {
+					copyFile(work+"-journal", i9+"-journal")
+				}
+				if pr, err := peer.Call("rawshared", i9); err != nil || !pr.Held {
+					r.Harness(t, "peer rawshared: %v %s", err, pr.Err)
+				}
+				got9, gerr9 = readAllHandle(h9)
+				peer.Call("rawunlock", "")
+				h9.Close()
+				r.Count("handles-opened-under-a-live-spilled-transaction", 1)
+			}
 			if got8 != nil {
 				// (judged like the others below, but only when it delivered data)
 				bad := len(got8) != len(want)
@@ -657,7 +697,10 @@ func run(r *vt.Run, t vt.TB, s spec) {
 			}
 			for _, ob := range []observer{{"fresh handle", got, gerr}, {"handle opened before the crash", got2, gerr2}, {"fresh handle while another process holds a read lock", got3, gerr3}, {"handle opened before the crash and not used until after it", got4, gerr4},
 				{"fresh handle opened through a symbolic link to the database file", got5, gerr5}, {"handle opened by a relative name, working directory changed before the read", got6, gerr6},
-				{"fresh handle opened by a name leading through a symbolic link to a directory and ..", got7, gerr7}} {
+				{"fresh handle opened by a name leading through a symbolic link to a directory and ..", got7, gerr7}, {"handle opened while a living connection had a spilled write transaction open (since rolled back); another process holds a read lock now", got9, gerr9}} {
+				if ob.got == nil && ob.err == nil {
+					continue // (that handle could not be opened at the time)
+				}
 				got, gerr := ob.got, ob.err
 				where := where0 + "; " + ob.name
 				if gerr != nil {
